@@ -517,6 +517,10 @@ int32[<=20] tail
     'cov/Record.1.0.dsdl': 'uint16 id\ncov.Blob.1.0 payload\n@sealed\n',
     'cov/URec.1.0.dsdl': '@union\nuint8 a\ncov.Record.1.0 rec\ncov.Record.1.0[2] pair\nfloat32 f\n@sealed\n',
     'cov/URecHolder.1.0.dsdl': 'cov.URec.1.0 u\ncov.URec.1.0[<=2] us\nuint8 t\n@sealed\n',
+    # a union all of whose options have the same length (a sealed type of fixed size), nested as a field and in a fixed array
+    'cov/UFixedSize.1.0.dsdl': '@union\nuint16 a\nint16 b\nfloat16 c\n@sealed\n',
+    'cov/UFixedHolder.1.0.dsdl': 'uint8 pre\ncov.UFixedSize.1.0 u\ncov.UFixedSize.1.0[2] us\nuint8 post\n@sealed\n',
+    'cov/UFixedOuter.1.0.dsdl': 'cov.UFixedHolder.1.0 h\ncov.UFixedHolder.1.0[<=2] hs\n@sealed\n',
     'cov/Inner.1.0.dsdl': 'uint5 a\nint11 b\nbool[<=3] c\n@sealed\n',
     'cov/Outer.1.0.dsdl': '''Inner.1.0 one
 void2
